@@ -5,7 +5,7 @@ import re
 
 from . import common as c
 
-SUPPORT = ["Simd/Blocked.v", "Simd/DispatchSpec.v", "Simd/DispatchProofs.v"]
+SUPPORT = ["Simd/Blocked.v", "Simd/QuoteCap.v", "Simd/DispatchSpec.v", "Simd/DispatchProofs.v"]
 
 CLAIM = {
     "gens": ["Dispatch"],
@@ -17,7 +17,8 @@ CLAIM = {
              "(b) for every byte predicate, every block width W>0 and every cascade of vector loops / single rounds of positive widths followed by "
              "the scalar tail, the block-structured finder equals the scalar specification on every input (hence the 32-byte and the 16-byte "
              "compilation of lspace, memcchr_p32, memcchr_quote_unsafe agree), and a 64-bit position mask assembled from lanes of any width is "
-             "the mask of the whole block (advance_string_*, get_maskx64). The two pre-assembled blobs themselves are NOT proved equal: they are "
+             "the mask of the whole block (advance_string_*, get_maskx64); memcchr_quote / memcchr_html_quote WITH a destination capacity "
+             "(loop 32, test 32, loop 16, test 16, scalar vs loop 16, test 16, scalar) agree for every input and capacity. The two pre-assembled blobs themselves are NOT proved equal: they are "
              "compared by running every native entry point of both variants in one process on the same memory (all lengths 0..200 x content "
              "classes x alignments 0..63, random and mutated JSON, number formatting), and the whole public API in two processes "
              "(default / SONIC_MODE=noavx2)."),
@@ -94,7 +95,7 @@ def run(ctx):
     ctx.assumptions = [
         "the two blobs (internal/native/{avx2,sse}/*_text_amd64.go) are two compilations of native/*.c that are not modelled instruction by instruction: "
         "their equality is established by differential runs only; the theorems explain why block width and lane width cannot matter at the level of the C source",
-        "the scan model (Simd/Blocked.v) is tied to the implementation through lspace and the first-backslash position reported by vstring; "
+        "the scan model (Simd/Blocked.v, Simd/QuoteCap.v) is tied to the implementation through lspace, the first-backslash position reported by vstring, and the (ret, dn) pair of Quote when the destination fills up; "
         "the string scanner's escaped-quote bit trick (m0_mask) and the number scanner are not part of this model (C02/C19/C20)",
         "S_skip_one_fast is declared in dispatch_amd64.go but assigned by neither useAVX2 nor useSSE and read nowhere in the amd64 build (never_assigned in Simd/DispatchSpec.v)",
         "F64toa/F32toa are not called on NaN/Inf (excluded by every caller before the native call)",
@@ -169,7 +170,7 @@ def run(ctx):
         inp = []
         for l in lines:
             f = l.split("\t")
-            inp.append("\t".join(f[:3]) if f[0] == "lspace" else "\t".join(f[:2]))
+            inp.append("\t".join(f[:3]) if f[0] in ("lspace", "qcap") else "\t".join(f[:2]))
         rc, mout = c.sh([mexe], input="\n".join(inp + extra) + "\n", timeout=900, check=False)
         ml = mout.splitlines()
         if rc != 0 or len(ml) != len(inp) + len(extra):
@@ -180,6 +181,16 @@ def run(ctx):
                 tie_n += 1
                 if f[0] == "lspace":
                     good = g[1:4] == [f[3], f[4], f[3]] and f[3] == f[4]
+                elif f[0] == "qcap":
+                    # model: F k / U k for both variants; implementation: ret, dn of Quote for both variants
+                    n = len(f[1]) // 2
+                    good = g[1:3] == g[3:5]
+                    for (kind, k), (ret, dn) in (((g[1], int(g[2])), (int(f[3]), int(f[4]))), ((g[3], int(g[4])), (int(f[5]), int(f[6])))):
+                        if kind == "U":
+                            good = good and ret == -k - 1 and dn == k
+                        elif k == n:
+                            good = good and ret == n and dn == n
+                        # F k with k < n: quote() goes on to write the escape, nothing to compare at this level
                 else:
                     good = g[1:3] == [f[2], f[3]]
                 if not good and len(tie_bad) < 10:
